@@ -1243,6 +1243,55 @@ theorem d11_prefix_refuted :
   intro h
   exact absurd (h d11Body [.existing "a"] 5 "a" (by decide)) (by decide)
 
+/-! ### fix f8abc79 — `Identity(v) → v` with `v` routed: no progress, the rule is skipped -/
+
+def idRule : Rule :=
+  { name := "", removeNodes := true, asFunction := false, guardTag := false,
+    pat := { nodes := [⟨"Identity", "", [.var 0], 1, []⟩], root := 0, outputs := [.out 0 0] },
+    repl := { inits := [], uniqueInits := false, nodes := [], outputs := [.var 0] } }
+/-- `y = Identity(x)`, `x` a graph input, `y` the graph output -/
+def idHost : Graph := .mk ["x"] [] [.mk 1 "Identity" "" "" [some "x"] ["y"] [] [] [] []] ["y"]
+/-- `a = Abs(x); z = If(c){ t = Identity(a) → t }`: the routed value is a value of the enclosing graph -/
+def idBodyHost : Graph :=
+  .mk ["x", "c"] []
+    [.mk 1 "Abs" "" "" [some "x"] ["a"] [] [] [] [],
+     .mk 2 "If" "" "" [some "c"] ["z"] [] [] ["a"]
+       [("then_branch", .mk [] [] [.mk 3 "Identity" "" "" [some "a"] ["t"] [] [] [] []] ["t"])]] ["z"]
+
+/-- **What the skip test of f8abc79 means** (every graph, match, node lists): it holds only when the
+replacement brings no node of its own, there is exactly one routing node, and the single matched node is a
+default-domain `Identity` reading the same value as the routing node — the rewrite would put an equal
+node in place of the matched one. -/
+theorem noProgress_spec (g : Graph) (m : Match) (newNodes idNodes : List Node)
+    (h : noProgress g m newNodes idNodes = true) :
+    newNodes = [] ∧ ∃ nid idn n, m.nodes = [nid] ∧ idNodes = [idn] ∧ nodeById g nid = some n ∧
+      n.op = "Identity" ∧ n.domain = "" ∧ n.inputs.head? = idn.inputs.head? := by
+  unfold noProgress at h
+  simp only [Bool.and_eq_true] at h
+  obtain ⟨⟨hn, _⟩, hm⟩ := h
+  refine ⟨by simpa using hn, ?_⟩
+  split at hm
+  · rename_i nid idn h1 h2
+    split at hm
+    · rename_i n hnode
+      simp only [Bool.and_eq_true, beq_iff_eq] at hm
+      exact ⟨nid, idn, n, h1, rfl, hnode, hm.1.1, hm.1.2, hm.2⟩
+    · cases hm
+  · cases hm
+
+/-- regression of the f8abc79 witnesses through the whole pass: the pass returns (no fuel error), applies
+nothing and leaves the graphs as they were — for a routed graph input feeding a graph output, and for a
+routed outer value inside an `If` body -/
+theorem identity_passthru_skipped :
+    ((applyToModel [idRule] 100 { opsets := [("", 18)], graph := idHost, funcs := [] }).toOption.map
+      fun r => (r.1, r.2.graph.nodes.map (·.id), r.2.graph.nodes.flatMap (·.inputNames), r.2.graph.outputs)) =
+      some (0, [1], ["x"], ["y"]) ∧
+    ((applyToModel [idRule] 100 { opsets := [("", 18)], graph := idBodyHost, funcs := [] }).toOption.map
+      fun r => (r.1, r.2.graph.nodes.map (·.id),
+        r.2.graph.nodes.flatMap fun n => n.subs.flatMap fun s => s.2.nodes.map (·.id) ++ s.2.nodes.flatMap (·.outputs.length :: []))) =
+      some (0, [1, 2], [3, 1]) := by
+  decide +kernel
+
 /-! ### C07-D4 (fixed e8a0767), C07-D10 (fixed 1dc987d) — the code before the fixes -/
 
 def d4Host : Graph :=
